@@ -83,7 +83,7 @@ func (k *c17) summarize(fn *ssa.Function, recvIdx int) *writeSummary {
 	sum := &writeSummary{may: map[string]bool{}, partial: map[string]token.Pos{}, ok: true}
 	first := true
 	errIdx := errResultIndex(fn)
-	complete := enumPaths(fn, 2, 60000, func(p CPath) {
+	complete := enumPathsRaw(fn, 2, 60000, func(p CPath) {
 		ret, isRet := p.Last().(*ssa.Return)
 		if !isRet {
 			return
@@ -263,7 +263,7 @@ func checkC17(c *Ctx, r *Report) {
 		if ok {
 			n := 0
 			allInstrs(sc, false, func(in ssa.Instruction) {
-				if ld, isLd := in.(*ssa.UnOp); isLd && ld.Op == token.MUL && strings.HasSuffix(apOf(ld.X).SelString(), "messageLayer.CompletionCode") {
+				if ld, isLd := in.(*ssa.UnOp); isLd && ld.Op == token.MUL && strings.HasSuffix(apOf(ld.X).SelString(), fMsg+".CompletionCode") {
 					n++
 					if !mustPrecede(sc, exch, ld) {
 						ok = false
